@@ -38,7 +38,10 @@ NEW_UNICODE = ("\U0001f970", "\U0001f9a5", "\U0001fad0", "\U0001f6dd", "\U0001fa
 
 
 def nonascii_argv(item):
-    """command line with a non-ASCII character: 2.7 hands the program bytes"""
+    """command line with a non-ASCII character: 2.7 hands the program bytes.  The same at API level: a NATIVE 2.x string (bytes)
+    with a non-ASCII character handed to a constructor"""
+    if item[0] == "ctor-native":
+        return any(ord(c) > 127 for c in item[2])
     return item[0] == "cli" and any(ord(c) > 127 for a in item[1] for c in a)
 
 
@@ -102,7 +105,8 @@ def _diff_failure(item, want, got, pyver):
 
 CHECKS = {"item": check_item}
 
-WITNESSES = [["cli", ["-3", "--vector=CVSS:3.1/AV:N/AC:L/PR:N/UI:N/S:U/C:H/I:H/A:\u00e9"], None],
+WITNESSES = [["ctor-native", "3", "CVSS:3.1/AV:N/AC:L/PR:N/UI:N/S:U/C:H/I:H/A:\u00e9"],
+             ["cli", ["-3", "--vector=CVSS:3.1/AV:N/AC:L/PR:N/UI:N/S:U/C:H/I:H/A:\u00e9"], None],
              ["interactive", 3.1, False, ["\u180en", "l", "n", "n", "u", "h", "h", "h"]],
              ["interactive", 3.1, False, ["\u00a0n", "l", "n", "n", "u", "h", "h", "h"]],
              ["interactive", 3.1, False, ["\x1cn\x1f", "l", "n", "n", "u", "h", "h", "h"]],
@@ -132,13 +136,19 @@ def corpus_part(n_examples, shard):
 
     @st.composite
     def item(draw):
-        kind = draw(st.sampled_from(("ctor-valid", "ctor-valid", "ctor-mutant", "ctor-long", "cli-long", "cli-new-unicode", "ctor-text", "ctor-cross", "rh", "rh-bad", "rh-near", "rh-float-syntax", "rh-long-score", "rh-long-score", "text",
+        kind = draw(st.sampled_from(("ctor-valid", "ctor-valid", "ctor-mutant", "ctor-native", "ctor-long", "cli-long", "cli-new-unicode", "ctor-text", "ctor-cross", "rh", "rh-bad", "rh-near", "rh-float-syntax", "rh-long-score", "rh-long-score", "text",
                                      "interactive", "cli-vector", "cli-vector", "cli-interactive")))
         ver = draw(gen.version_key())
         if kind == "ctor-valid":
             return kind, ["ctor", ver, draw(gen.valid(ver))]
         if kind == "ctor-mutant":
             return kind, ["ctor", ver, draw(gen.mutated(ver))[0]]
+        if kind == "ctor-native":
+            s0 = draw(st.one_of(gen.valid(ver), gen.mutated(ver, max_edits=2).map(lambda t: t[0])))
+            if draw(st.integers(0, 2)) == 0:
+                i = draw(st.integers(0, len(s0)))
+                s0 = s0[:i] + draw(st.sampled_from(("\u00e9", "\u2026", "\u00a0", "\u0416"))) + s0[i:]
+            return kind, ["ctor-native", ver, s0]
         if kind == "ctor-long":
             return kind, ["ctor", ver, draw(gen.lengthened(ver))]
         if kind == "cli-long":
@@ -311,6 +321,6 @@ def run(tier, t0):
                          ["reference interpreter: /venv/bin/python (3.12), tied to the specification by C01-C17",
                           "hash() values and the key order of unsorted dicts are not observables; text-extraction results compared sorted",
                           "interpreters found: %s" % ", ".join(found)],
-                         required=["kind:" + k for k in ("ctor-valid", "ctor-mutant", "ctor-long", "cli-long", "cli-new-unicode", "ctor-text", "ctor-cross", "rh", "rh-bad", "rh-near", "rh-float-syntax", "rh-long-score", "text", "interactive", "interactive-bytes", "cli-vector", "cli-interactive", "interactive-nonascii")]
+                         required=["kind:" + k for k in ("ctor-valid", "ctor-mutant", "ctor-native", "ctor-long", "cli-long", "cli-new-unicode", "ctor-text", "ctor-cross", "rh", "rh-bad", "rh-near", "rh-float-syntax", "rh-long-score", "text", "interactive", "interactive-bytes", "cli-vector", "cli-interactive", "interactive-nonascii")]
                          + ["python:" + f for f in found],
                          extra={"interpreters": found + ["venv-3.12 (reference)"], "corpus_items": len(items)})
